@@ -26,7 +26,8 @@ MANIFEST = {
             "C13_merge_apply_regression (the witness of the former finding merge-npcont-dflt, fixed in libyang by 2dd55cd and in the "
             "model with it: the merged diff now yields C exactly), C13_merge_undo (for all well-formed "
             "A,B over a schema without user-ordered lists merging diff(B,A) into diff(A,B) gives the EMPTY diff, both merge options) "
-            "and its corollary C13_merge_apply_partial (the composition law for C = A). Tie: the extracted models of "
+            "and its corollary C13_merge_apply_partial (the composition law for C = A), C13_merge_apply_partial_disjoint (the composition law "
+            "when the two diffs touch different top-level instances). Tie: the extracted models of "
             "lyd_diff_reverse_all and lyd_diff_merge_all (whole merge table, redundancy removal, both merge options) must print the same "
             "reversed / merged diff trees and the same patched trees as libyang on generated triples built to hit every cell (T2 "
             "dtree-C13); the laws are also judged on the implementation by dump equality (difftree-laws-C13).",
